@@ -120,6 +120,33 @@ def must(v, pred, _memo=None, _stack=None):
     return r
 
 
+def must_env(v, pred, env, _memo=None, _stack=None):
+    """like must(), but a parameter of a function listed in env ({fn_name: caller's call node}) is replaced by the caller's argument"""
+    if _memo is None:
+        _memo, _stack = {}, set()
+    k = id(v)
+    if k in _memo:
+        return _memo[k]
+    if k in _stack:
+        return True
+    if pred(v):
+        _memo[k] = True
+        return True
+    _stack.add(k)
+    if v.kind == "param" and v.fn is not None and v.fn.name in env:
+        call = env[v.fn.name]
+        i = v.d["idx"] - 1
+        r = i < len(call.kids) and must_env(call.kids[i], pred, env, _memo, _stack)
+    elif v.kind == "phi":
+        kids = [x for x in v.kids if x.kind not in ("cycle", "pending")]
+        r = bool(kids) and all(must_env(x, pred, env, _memo, _stack) for x in kids)
+    else:
+        r = any(must_env(x, pred, env, _memo, _stack) for x in v.kids)
+    _stack.discard(k)
+    _memo[k] = r
+    return r
+
+
 def const_value(v):
     """python value of a const node ('str'/'int'/'bool'/'char'), else None"""
     v = peel(v)
@@ -222,7 +249,8 @@ def vstr(v, depth=4):
 
 
 class FnVals:
-    def __init__(self, fn):
+    def __init__(self, fn, removed_edges=None):
+        self.removed = set(removed_edges or ())
         self.fn = fn
         self.facts = fn.facts
         self._defs = None  # bb -> list of (idx, local, def)
@@ -316,7 +344,7 @@ class FnVals:
                 if d0 not in results:
                     results.append(d0)
             for p in fn.preds(b):
-                if p in visited:
+                if p in visited or (p, b) in self.removed:
                     continue
                 visited.add(p)
                 stack.append((p, len(fn.blocks[p]["stmts"]) + 1))
@@ -564,7 +592,13 @@ class FnVals:
     def return_value(self):
         fn = self.fn
         outs = []
+        live = None
+        if self.removed:
+            import cfg as _cfg
+            live = _cfg.reachable(fn, [0], removed_edges=self.removed)
         for b in fn.normal_blocks():
+            if live is not None and b not in live:
+                continue
             if fn.term(b)["k"] == "return":
                 outs.append(self.at_place(dict(local=0, proj=[]), b, len(fn.blocks[b]["stmts"])))
         if len(outs) == 1:
